@@ -33,6 +33,9 @@
 
 #include "config.h"
 #include "bearssl.h"
+#ifdef BR_VERIF
+#include "br_verif.h"
+#endif
 
 /*
  * On MSVC, disable the warning about applying unary minus on an
